@@ -333,6 +333,8 @@ for _ in range(40):
     try:
         atoms = pick_atoms(rng.randint(2, 5))
         parts = [(rng.choice([1 / 3.0, 2 / 7.0, 0.1 + 0.2, 1e-13 / 3, 5e-13, 1e5 / 7, rng.random(), 10 ** rng.uniform(-14, 3)]), a) for a in atoms]
+        if rng.random() < 0.3:
+            parts[rng.randrange(len(parts))] = (0.0, parts[0][1] if len(parts) == 1 else parts[-1][1])     # an atom whose total count is zero is still listed
         f = formula(tuple(parts))
         if rng.random() < 0.5:
             f = (1 / 3.0) * f + (1 / 7.0) * formula(tuple(parts[:2]))
